@@ -161,3 +161,9 @@ Print Assumptions C12_source_sites.
 Theorem C12_source_lock_kinds : gen_lock_kinds = [] \/ gen_lock_kinds = expected_lock_kinds.
 Proof. exact source_lock_kinds. Qed.
 Print Assumptions C12_source_lock_kinds.
+
+(** every callback of the reload wrapper reads the value under a BLOCKING read lock (an emission that meets a reload waits and is then
+    judged by the new value, never by "no value"), read off reload.rs *)
+Theorem C12_source_reload_locks : gen_reload_locks = [] \/ gen_reload_locks = expected_reload_locks.
+Proof. exact source_reload_locks. Qed.
+Print Assumptions C12_source_reload_locks.
